@@ -41,8 +41,10 @@ cfg("C04x", "Classes4", "OutsC04", "{2}", "RetsOne", "AdvsExact", "DecsAll", "Ra
 cfg("C05", "Classes4", "OutsC05", "{0}", "RetsAll", "AdvsExact", "DecsAll", "RasSome", BOTH, 1, "ConfigsC05", False)
 cfg("C05x", "Classes4", "OutsC05x", "{0}", "RetsAll", "AdvsExact", "DecsSleep", "RasSome", EXEC, 1, "ConfigsC05x", True)
 cfg("C05", "Classes4", "OutsC05", "{0}", "RetsAll", "AdvsExact", "DecsAll", "RasSome", BOTH, 1, "ConfigsC05", False, edurs="SomeDur")
-cfg("C10", "Classes4", "OutsC10", "{1}", "RetsTwoSmall", "AdvsExact", "DecsSleep", "RasNone", EXEC, 3, "ConfigsC10", False, gaps="GapsC10")
+cfg("C10", "Classes4", "OutsC10", "{1}", "RetsTwoSmall", "AdvsTwo", "DecsSleep", "RasNone", EXEC, 3, "ConfigsC10", False, gaps="GapsC10")
 cfg("C10x", "Classes4", "OutsC10", "{1}", "RetsOne", "AdvsExact", "DecsSleep", "RasNone", EXEC, 3, "ConfigsC10x", True, gaps="GapsC10")
+# back-offs as long as the budget window, sleepers that return without time passing
+cfg("C10y", "Classes4", "OutsC10", "{1}", "RetsWin", "AdvsTwo", "DecsSleep", "RasNone", EXEC, 2, "ConfigsC10y", True, gaps="GapsC10y")
 cfg("C11", "Classes4", "OutsC04", "{0, 2}", "RetsOne", "AdvsExact", "DecsAll", "RasNone", EXEC, 1, "ConfigsC11", False)
 cfg("C11x", "Classes4", "OutsC11x", "{2}", "RetsOne", "AdvsExact", "DecsAll", "RasNone", EXEC, 1, "ConfigsC11x", True)
 cfg("C12", "Classes4", "OutsC12", "{0, 2}", "RetsTwo", "AdvsExact", "DecsAll", "RasSome", BOTH, 1, "ConfigsC12", False)
@@ -67,7 +69,7 @@ cfg("C04_thorough", "Classes4", "OutsC04", "{0, 2}", "RetsOne", "AdvsExact", "De
 cfg("C04x_thorough", "Classes4", "OutsC04", "{0, 2}", "RetsOne", "AdvsExact", "DecsAll", "RasNone", CALL, 1, "ConfigsC04T", True)
 cfg("C05_thorough", "Classes4", "OutsC05", "{0}", "RetsAll", "AdvsExact", "DecsAll", "RasSome", BOTH, 1, "ConfigsC05T", False)
 cfg("C05x_thorough", "Classes4", "OutsC05x", "{0}", "RetsAll", "AdvsExact", "DecsAll", "RasSome", BOTH, 1, "ConfigsC05x", True)
-cfg("C10_thorough", "Classes4", "OutsC10", "{1}", "RetsTwoSmall", "AdvsExact", "DecsSleep", "RasNone", EXEC, 3, "ConfigsC10T", False, gaps="GapsC10")
+cfg("C10_thorough", "Classes4", "OutsC10", "{1}", "RetsTwoSmall", "AdvsTwo", "DecsSleep", "RasNone", EXEC, 3, "ConfigsC10T", False, gaps="GapsC10")
 cfg("C10x_thorough", "Classes4", "OutsC10", "{1}", "RetsOne", "AdvsExact", "DecsSleep", "RasNone", EXEC, 3, "ConfigsC10", True, gaps="GapsC10")
 cfg("C11_thorough", "Classes4", "OutsC04", "{0, 2}", "RetsOne", "AdvsExact", "DecsAll", "RasNone", EXEC, 2, "ConfigsC11T", False)
 cfg("C11x_thorough", "Classes4", "OutsC04", "{0, 2}", "RetsOne", "AdvsExact", "DecsAll", "RasNone", EXEC, 1, "ConfigsC11", True)
